@@ -63,29 +63,13 @@ class Capacity(object):
     # ---- extraction ------------------------------------------------------
 
     def _extract_guards(self):
-        """admission guards `size <= CAP` of _build_packet_impl (resend loop and new-message loop)"""
+        """admission guards `size <= CAP` of _build_packet_impl (resend loop and new-message loop) and the linear
+        accounting model of the two packing loops (see class Accounting)"""
         fi = self.bpi
-        self.guards = []     # (if_node, cap_expr, count_guard_expr|None, msg_var, source)
+        self.guards = []
         size_defs = [n for n in walk_own(fi.node) if isinstance(n, ast.Assign) and isinstance(n.targets[0], ast.Name)
                      and n.targets[0].id == "size"]
         for sd in size_defs:
-            terms = _sum_terms(sd.value)
-            texts = sorted(norm(t) for t in terms)
-            msgvar = None
-            ok = len(terms) == 3
-            kinds = set()
-            for t in terms:
-                tt = norm(t)
-                if isinstance(t, ast.Call) and norm(t.func) == "len" and tt.endswith(".payload)"):
-                    msgvar = norm(t.args[0].value)
-                    kinds.add("payload")
-                elif isinstance(t, ast.Call) and norm(t.func) == "Packet.overhead" and norm(t.args[0]) in ("1 + len(msgs)", "len(msgs) + 1"):
-                    kinds.add("overhead")
-                elif tt == "current_msg_length":
-                    kinds.add("running")
-            if not ok or kinds != {"payload", "overhead", "running"}:
-                raise Undecided("capacity model: size expression has an unmodelled shape: %s" % norm(sd.value))
-            # the guard following this definition in the same block
             blk = _block_of(sd)
             idx = blk.index(sd)
             guard = None
@@ -114,9 +98,20 @@ class Capacity(object):
                     raise Undecided("capacity model: unmodelled admission conjunct %s" % norm(cj))
             if cap is None:
                 raise Undecided("capacity model: admission guard does not bound size: %s" % norm(guard.test))
-            self.guards.append({"if": guard, "cap": cap, "count": count_guard, "msg": msgvar, "size": sd})
+            # statements of the same block that precede the guard (temporaries feeding `size`)
+            pre = [st for st in blk[:blk.index(guard)] if isinstance(st, ast.Assign) and isinstance(st.targets[0], ast.Name)]
+            # the message variable: the name whose .payload length is measured
+            msgvar = None
+            for st in pre:
+                for c in ast.walk(st.value):
+                    if isinstance(c, ast.Call) and norm(c.func) == "len" and norm(c.args[0]).endswith(".payload"):
+                        msgvar = norm(c.args[0].value)
+            if msgvar is None:
+                raise Undecided("capacity model: the size computation does not measure a payload: %s" % norm(sd.value))
+            self.guards.append({"if": guard, "cap": cap, "count": count_guard, "msg": msgvar, "size": sd, "pre": pre})
         if len(self.guards) < 2:
             raise AnchorMissing("capacity model: admission guards in _build_packet_impl: %d < 2" % len(self.guards))
+        self.accounting = Accounting(self)
 
     def _extract_send(self):
         fi = self.send
@@ -204,8 +199,271 @@ class Capacity(object):
             else:
                 cg.append(ev(g["count"][0], self.bpi) + g["count"][1])     # len(msgs) < K before append -> at most K messages
         m["COUNT_CAPS"] = cg
+        acc = self.accounting.evaluate(ov)
+        m["alone"] = acc["alone"]          # per guard: (coefficient of p, constant) of `size` for an empty datagram
+        m["excess"] = acc["excess"]        # per guard, per case: linear form  actual encoded payload - accounted size
+        m["steps"] = acc["steps"]
         self._cache[mtu] = m
         return m
+
+    def size_alone(self, m, i, p):
+        sp, s0 = m["alone"][i]
+        return sp * p + s0
+
+    def admissible_empty(self, m):
+        """how many empty messages the guards admit into one datagram (joint bound over both loops, by size and count guard)"""
+        return self.accounting.count_bound(m)
+
+
+class Accounting(object):
+    """Linear accounting model of the packing loops (an abstract interpretation in the domain of linear forms over
+    p = length of the candidate payload, n = messages already admitted, S = sum of the admitted payload lengths).
+
+    Every local variable that an admit-branch updates is an *accounting variable*.  Its update must be a unit recurrence
+    a' = a + u_c + v*p  on each case c in {n=0, n=1, n>=2}; the closed form  a(n, S) = init + u_0 + u_1 + (n-2)*u_2 + v*S  then
+    follows by induction and is substituted into the guard's `size`.  The real encoded payload after the admission is
+    S + p + overhead(n+1); `excess` = real - accounted must be a constant <= CAP_true - CAP (never positive in p, S or n).
+    Anything outside this shape is Undecided (exit 2), never guessed."""
+
+    CASES = ("n=0", "n=1", "n>=2")
+
+    def __init__(self, cap):
+        self.cap = cap
+        fi = cap.bpi
+        self.fi = fi
+        # accounting variables: names assigned in an admit branch
+        self.vars = []
+        for g in cap.guards:
+            for st in g["if"].body:
+                for t in _assigned_names(st):
+                    if t not in self.vars and t not in ("idx",):
+                        self.vars.append(t)
+        if not self.vars:
+            raise Undecided("accounting model: no accounting variable is updated when a message is admitted")
+        # initial values (assignments that precede both loops, at function level)
+        self.init_exprs = {}
+        for st in fi.node.body:
+            if isinstance(st, ast.Assign) and isinstance(st.targets[0], ast.Name) and st.targets[0].id in self.vars:
+                self.init_exprs[st.targets[0].id] = st.value
+        missing = [v for v in self.vars if v not in self.init_exprs]
+        if missing:
+            raise Undecided("accounting model: accounting variable(s) %s are not initialised at function level" % missing)
+        # linearity of Packet.overhead beyond 2 messages
+        b = cap.overhead(3) - cap.overhead(2)
+        for k in range(2, 301):
+            if cap.overhead(k) != b * k:
+                raise Undecided("accounting model: Packet.overhead is not linear for k >= 2 (k=%d)" % k)
+        self.b = b
+
+    # -- linear forms: dict symbol -> coefficient, key 1 = constant ----------------------------------------------------
+    @staticmethod
+    def _add(x, y, sign=1):
+        out = dict(x)
+        for k, v in y.items():
+            out[k] = out.get(k, 0) + sign * v
+        return {k: v for k, v in out.items() if v != 0 or k == 1}
+
+    @staticmethod
+    def _scale(x, c):
+        return {k: v * c for k, v in x.items()}
+
+    def _const(self, x):
+        return all(k == 1 for k in x)
+
+    def lin(self, e, env, case, g, ov):
+        """linear form of expression e in case `case`; env: temporaries and 'A:<var>' placeholders"""
+        cap = self.cap
+        if isinstance(e, ast.Constant) and isinstance(e.value, int) and not isinstance(e.value, bool):
+            return {1: e.value}
+        if isinstance(e, ast.Name):
+            if e.id in env:
+                return env[e.id]
+            if e.id in self.vars:
+                return {"A:" + e.id: 1}
+            raise Undecided("accounting model: unknown name %s in the size computation" % e.id)
+        if isinstance(e, ast.Call) and norm(e.func) == "len" and len(e.args) == 1:
+            t = norm(e.args[0])
+            if t == "%s.payload" % g["msg"]:
+                return {"p": 1}
+            if t == "msgs":
+                return {1: 0} if case == "n=0" else {1: 1} if case == "n=1" else {"n": 1}
+            raise Undecided("accounting model: len(%s) is not modelled" % t)
+        if isinstance(e, ast.BinOp) and isinstance(e.op, (ast.Add, ast.Sub)):
+            return self._add(self.lin(e.left, env, case, g, ov), self.lin(e.right, env, case, g, ov), 1 if isinstance(e.op, ast.Add) else -1)
+        if isinstance(e, ast.BinOp) and isinstance(e.op, ast.Mult):
+            l, r = self.lin(e.left, env, case, g, ov), self.lin(e.right, env, case, g, ov)
+            if self._const(l):
+                return self._scale(r, l.get(1, 0))
+            if self._const(r):
+                return self._scale(l, r.get(1, 0))
+            raise Undecided("accounting model: non-linear product %s" % norm(e))
+        if isinstance(e, ast.IfExp):
+            t = self.truth(e.test, case)
+            return self.lin(e.body if t else e.orelse, env, case, g, ov)
+        if isinstance(e, ast.Call) and norm(e.func) == "Packet.overhead" and len(e.args) == 1:
+            a = self.lin(e.args[0], env, case, g, ov)
+            if self._const(a):
+                return {1: cap.overhead(a.get(1, 0))}
+            if set(a) <= {"n", 1} and a.get("n") == 1 and a.get(1, 0) >= 0:
+                return {"n": self.b, 1: self.b * a.get(1, 0)}          # overhead(n + j) = b*(n + j) for n >= 2
+            raise Undecided("accounting model: Packet.overhead(%s) is not modelled" % norm(e.args[0]))
+        v = cap.ctx.folder.fold_with(e, self.fi.module, cls=self.fi.cls, overrides=ov)
+        if isinstance(v, int) and not isinstance(v, bool):
+            return {1: v}
+        raise Undecided("accounting model: %s is not a linear form" % norm(e))
+
+    def truth(self, t, case):
+        n0 = case == "n=0"
+        txt = norm(t)
+        table = {"msgs": not n0, "not msgs": n0, "len(msgs) == 0": n0, "len(msgs) > 0": not n0, "len(msgs) >= 1": not n0, "len(msgs) != 0": not n0,
+                 "len(msgs) < 1": n0, "len(msgs)": not n0, "len(msgs) == 1": case == "n=1", "len(msgs) > 1": case == "n>=2", "len(msgs) >= 2": case == "n>=2"}
+        if txt in table:
+            return table[txt]
+        raise Undecided("accounting model: test %s is not decidable per message-count case" % txt)
+
+    def _body_forms(self, g, case, ov):
+        """(size form, {var: updated form}) of one loop for one case, over placeholders A:<var>, p, n"""
+        # temporaries are resolved on demand (only what `size` and the updates depend on)
+        defs = {st.targets[0].id: st.value for st in g["pre"]}
+        env = _LazyEnv(self, defs, case, g, ov)
+        if "size" not in defs:
+            raise Undecided("accounting model: `size` is not computed before the guard")
+        upd = {}
+        env2 = env
+        for st in g["if"].body:
+            if isinstance(st, ast.Assign) and isinstance(st.targets[0], ast.Name) and st.targets[0].id in self.vars:
+                upd[st.targets[0].id] = self.lin(st.value, env2, case, g, ov)
+            elif isinstance(st, ast.AugAssign) and isinstance(st.target, ast.Name) and st.target.id in self.vars and isinstance(st.op, (ast.Add, ast.Sub)):
+                cur = upd.get(st.target.id, {"A:" + st.target.id: 1})
+                upd[st.target.id] = self._add(cur, self.lin(st.value, env2, case, g, ov), 1 if isinstance(st.op, ast.Add) else -1)
+            elif _assigned_names(st):
+                raise Undecided("accounting model: unmodelled update %s" % norm(st)[:60])
+        return env["size"], upd
+
+    def evaluate(self, ov):
+        if not hasattr(self, "_dep_texts"):
+            txt = " ".join(norm(st.value) for g in self.cap.guards for st in g["pre"]) + " " + " ".join(norm(st) for g in self.cap.guards for st in g["if"].body) + \
+                " " + " ".join(norm(e) for e in self.init_exprs.values())
+            self._dep_texts = txt
+        key = tuple(sorted((k, v) for k, v in ov.items() if isinstance(v, (int, float)) and k in self._dep_texts))
+        if getattr(self, "_memo_key", None) == key:
+            return self._memo
+        cap = self.cap
+        init = {}
+        for v in self.vars:
+            f = self.lin(self.init_exprs[v], {}, "n=0", cap.guards[0], ov)
+            if not self._const(f):
+                raise Undecided("accounting model: initial value of %s is not constant" % v)
+            init[v] = f.get(1, 0)
+        steps = []      # per guard: {case: {var: (u, v)}}
+        sizes = []      # per guard: {case: size form over placeholders}
+        for g in cap.guards:
+            st, sz = {}, {}
+            for case in self.CASES:
+                size, upd = self._body_forms(g, case, ov)
+                sz[case] = size
+                st[case] = {}
+                for v in self.vars:
+                    f = upd.get(v, {"A:" + v: 1})
+                    others = [k for k in f if k not in ("A:" + v, "p", 1)]
+                    if f.get("A:" + v, 0) != 1 or others:
+                        raise Undecided("accounting model: update of %s is not a unit recurrence in case %s: %r" % (v, case, f))
+                    st[case][v] = (f.get(1, 0), f.get("p", 0))
+            steps.append(st)
+            sizes.append(sz)
+        # both loops feed one list: their step functions must agree, and v must not depend on the case
+        if any(steps[i] != steps[0] for i in range(1, len(steps))):
+            raise Undecided("accounting model: the two packing loops update the accounting variables differently")
+        closed = {}     # case -> var -> linear form over n, S
+        for v in self.vars:
+            u0, v0 = steps[0]["n=0"][v]
+            u1, v1 = steps[0]["n=1"][v]
+            u2, v2 = steps[0]["n>=2"][v]
+            if not (v0 == v1 == v2):
+                raise Undecided("accounting model: payload coefficient of %s differs between cases" % v)
+            closed.setdefault("n=0", {})[v] = {1: init[v]}
+            closed.setdefault("n=1", {})[v] = {1: init[v] + u0, "S": v0}
+            closed.setdefault("n>=2", {})[v] = {1: init[v] + u0 + u1 - 2 * u2, "n": u2, "S": v0}
+        alone, excess = [], []
+        for gi, g in enumerate(cap.guards):
+            ex = {}
+            for case in self.CASES:
+                size = {1: 0}
+                for k, c in sizes[gi][case].items():
+                    if isinstance(k, str) and k.startswith("A:"):
+                        size = self._add(size, self._scale(closed[case][k[2:]], c))
+                    else:
+                        size = self._add(size, {k: c})
+                if case == "n=0":
+                    actual = {"p": 1, 1: cap.overhead(1)}
+                    alone.append((size.get("p", 0), size.get(1, 0)))
+                    if [k for k in size if k not in ("p", 1)]:
+                        raise Undecided("accounting model: size for an empty datagram depends on %r" % size)
+                elif case == "n=1":
+                    actual = {"S": 1, "p": 1, 1: cap.overhead(2)}
+                else:
+                    actual = {"S": 1, "p": 1, "n": self.b, 1: self.b}
+                ex[case] = self._add(actual, size, -1)
+            excess.append(ex)
+        self._memo_key = key
+        self._memo = {"alone": alone, "excess": excess, "steps": steps[0], "closed": closed, "sizes": sizes, "init": init}
+        return self._memo
+
+    def count_bound(self, m):
+        """largest number of empty messages the guards admit (by their own accounting), capped by the count guards"""
+        cap = self.cap
+        memo = self._memo
+        best = 0
+        for gi in range(len(cap.guards)):
+            n = 0
+            while n < 100000:
+                case = "n=0" if n == 0 else "n=1" if n == 1 else "n>=2"
+                size = 0
+                for k, c in memo["sizes"][gi][case].items():
+                    if isinstance(k, str) and k.startswith("A:"):
+                        f = memo["closed"][case][k[2:]]
+                        size += c * (f.get(1, 0) + f.get("n", 0) * n)
+                    elif k == "n":
+                        size += c * n
+                    elif k == 1:
+                        size += c
+                if size > m["CAPS"][gi]:
+                    break
+                if m["COUNT_CAPS"][gi] is not None and n >= m["COUNT_CAPS"][gi]:
+                    break
+                n += 1
+            best = max(best, n)
+        return best
+
+
+class _LazyEnv(object):
+    def __init__(self, acc, defs, case, g, ov):
+        self.acc, self.defs, self.case, self.g, self.ov = acc, defs, case, g, ov
+        self.memo = {}
+        self.active = set()
+
+    def __contains__(self, name):
+        return name in self.defs and name not in self.acc.vars
+
+    def __getitem__(self, name):
+        if name not in self.memo:
+            if name in self.active:
+                raise Undecided("accounting model: cyclic temporary %s" % name)
+            self.active.add(name)
+            self.memo[name] = self.acc.lin(self.defs[name], self, self.case, self.g, self.ov)
+            self.active.discard(name)
+        return self.memo[name]
+
+
+def _assigned_names(st):
+    out = []
+    if isinstance(st, ast.Assign):
+        for t in st.targets:
+            if isinstance(t, ast.Name):
+                out.append(t.id)
+    elif isinstance(st, ast.AugAssign) and isinstance(st.target, ast.Name):
+        out.append(st.target.id)
+    return out
 
 
 def _sum_terms(e):
